@@ -113,11 +113,12 @@ TEXT.update({
 
 TEXT.update({
  "C04": {
-  "engine": "K",
-  "technique": "bounded model checking (Kani/CBMC) of DataSetWriter + StatefulEncoder + the Explicit VR LE encoder into a counting writer, byte-exact against a reference PS3.5 encoder written in the harness",
-  "level": "For fixed token shapes (sequence > item > US element; encapsulated pixel data followed by such a sequence) with symbolic tag, value bytes and defined/undefined input lengths, and both explicit-length strategies, "
-           "the solver shows the emitted bytes equal the reference encoding: delimiters exactly for undefined lengths, lengths as recorded otherwise.",
-  "note": "writer kernels only: other VRs and value padding, the other two codecs, whole files and reported byte counts are outside; dictionary lookup and tracing stubbed",
+  "engine": "M",
+  "technique": "symbolic execution of the rustc MIR of DataSetWriter::write, StatefulEncoder and the three uncompressed codecs with z3 deciding each path; the written bytes are read by an independent PS3.5 walker",
+  "level": "Per instance of concrete shape and symbolic content: (a) one element through encode_primitive_element - stream == header + value + VR-specific padding byte, header length even and equal to the bytes that follow, "
+           "caller-supplied header length ignored, bytes_written == bytes written; (b) token streams through DataSetWriter under both strategies - defined lengths end exactly where they say, undefined ones are closed by the "
+           "matching delimiters, fragments padded to even length. Every instance is also replayed natively and the real bytes walked.",
+  "note": "Date/Time/DateTime and float values, non-default character sets, whole files and deflated syntaxes are outside; the earlier Kani harnesses for the writer ran out of memory (30 GB) and were removed",
  },
  "C05": {
   "engine": "K",
